@@ -221,7 +221,15 @@ ARGS_LOOP:
 					// TODO: Also remove the / when dealing with windows.
 					partialOption := strings.TrimPrefix(strings.TrimPrefix(iterator.Value(), "-"), "-")
 					// value = strings.SplitN(value, "=", 2)[0]
-					for k, v := range currentProgramNode.ChildOptions {
+					// Walk the options in sorted order so that lastOpt (used for the
+					// value hint below) doesn't depend on map iteration order.
+					optionNames := make([]string, 0, len(currentProgramNode.ChildOptions))
+					for k := range currentProgramNode.ChildOptions {
+						optionNames = append(optionNames, k)
+					}
+					sort.Strings(optionNames)
+					for _, k := range optionNames {
+						v := currentProgramNode.ChildOptions[k]
 						// handle lonesome dash
 						if k == "-" {
 							if iterator.Value() == "-" {
